@@ -10,6 +10,7 @@ import (
 	"encoding/json"
 	"fmt"
 	"go/ast"
+	"go/token"
 	"go/types"
 	"math/big"
 	"os"
@@ -76,6 +77,11 @@ func goLitOfModel(v string, sort Sort) string {
 func (w *World) replaySpecSource(pk *Pkg) string {
 	var sb strings.Builder
 	for _, d := range pk.GenFile.Decls {
+		if gd, ok := d.(*ast.GenDecl); ok && gd.Tok != token.IMPORT {
+			sb.WriteString(pk.GenSrc[w.Fset.Position(gd.Pos()).Offset:w.Fset.Position(gd.End()).Offset])
+			sb.WriteString("\n")
+			continue
+		}
 		fd, ok := d.(*ast.FuncDecl)
 		if !ok {
 			continue
